@@ -150,7 +150,7 @@ def run(tier):
     chk = Check('C14', 'exploration', tier,
                 'arrangement grammar of 0-4 opt-in instances (top-level, 1-3 sibling attributes, containers, chains depth<=3, shared, cyclic, mixed with plain objects) '
                 'x class variants (marker base / duck-typed, with/without __setstate__, dict/tuple state) x protocols 2-5, enumerated completely; plus seeded random graphs over '
-                'generated opt-in hierarchies; distinct non-trivial = distinct (shape, variant, protocol) containing >=1 opt-in instance')
+                'generated opt-in hierarchies; plus the file API (several graphs dumped into one stream, loaded back one by one, trailer untouched); distinct non-trivial = distinct (shape, variant, protocol) containing >=1 opt-in instance')
     r = rng('c14')
     registry = {}
     variants, plains = make_variant_classes(registry)
@@ -229,9 +229,67 @@ def run(tier):
             if sym is not None:
                 chk.violation('%s:%s' % (sym, pk.primary(feats)), 'random graph (%d opt-in instances, features %s), protocol %d: %s (%s)' % (n_opt, feats, proto, sym, detail),
                               {'specs': specs, 'protocol': proto, 'features': feats, 'detail': detail, 'graph': short(canon(g), 600)})
+    file_api(chk, variants, plains, thorough)
     chk.assumptions = ['generated opt-in classes keep their attributes in __dict__ (no __slots__-only opt-in classes)',
                        'known-finding keys are <symptom>:<arrangement features>; a graph failing with a listed symptom for a different reason but with the same features would be masked']
     return chk.finish()
+
+
+def file_api(chk, variants, plains, thorough):
+    """dump()/load() on one stream: several graphs spooled one after the other and a trailer of foreign bytes; each
+    load() must return exactly the next graph (as pickle.load does) and leave the rest of the stream alone."""
+    import io
+    r = rng('c14file')
+    ok_builders = []
+    for vi, cls in enumerate(variants):
+        labels = pk.Labels()
+
+        def O(cls=cls, labels=labels, **attrs):
+            return pk.new_instance(cls, labels, **attrs)
+
+        def P(labels=labels, **attrs):
+            return pk.new_instance(plains[0], labels, **attrs)
+
+        for sname, build in shapes(O, P).items():
+            g = build()
+            if pk.features(g) == 'no-optin':
+                continue
+            try:
+                if judge(g, 4)[0] is None:
+                    ok_builders.append((sname, vi, build))
+            except RecursionError:
+                pass
+    LOG.clear()
+    for si in range(60 if thorough else 15):
+        picks = [r.choice(ok_builders) for _ in range(r.randint(2, 5))]
+        proto = r.choice([2, 3, 4, 5])
+        f = io.BytesIO()
+        want = []
+        for sname, vi, build in picks:
+            g = build()
+            want.append(canon(g))
+            rp.dump(g, f, protocol=proto)
+        trailer = b'TRAILER-not-a-pickle'
+        f.write(trailer)
+        f.seek(0)
+        chk.case(('file-api', si, tuple((n, v) for n, v, _ in picks), proto))
+        chk.count('file_api_streams')
+        prob = None
+        for k, w in enumerate(want):
+            try:
+                out = rp.load(f)
+            except BaseException as e:  # noqa
+                prob = 'load-raised:%s:graph-%s-of-stream' % (type(e).__name__, 'first' if k == 0 else 'later')
+                break
+            if canon(out) != w:
+                prob = 'shape:graph-%s-of-stream' % ('first' if k == 0 else 'later')
+                break
+            chk.count('file_api_loads_ok')
+        if prob is None and f.read() != trailer:
+            prob = 'bytes-after-the-last-pickle-consumed'
+        LOG.clear()
+        if prob:
+            chk.violation('file-api:' + prob, 'stream of %d graphs %s + trailer, protocol %d: %s' % (len(picks), [n for n, _, _ in picks], proto, prob), {'shapes': [n for n, _, _ in picks], 'protocol': proto})
 
 
 def replay(spec):
